@@ -146,6 +146,7 @@ func compareSummaries(p *Program, code, spec *Summary) *equivResult {
 			}
 			r.Labels += 2 * n
 			cmp(fmt.Sprintf("L%d.cond", i), cl.Cond, sl.Cond)
+			cmp(fmt.Sprintf("L%d.entry", i), inLoop(code, cl.Parent, cl.Entry), inLoop(spec, sl.Parent, sl.Entry))
 			cmp(fmt.Sprintf("L%d.over", i), cl.Over, sl.Over)
 			if len(cl.Exits) != len(sl.Exits) {
 				fail("L%d: %d early exits in the code, %d in the reference", i, len(cl.Exits), len(sl.Exits))
@@ -418,6 +419,7 @@ func dumpSummary(p *Program, s *Summary) {
 	}
 	for _, l := range s.Loops {
 		pr(fmt.Sprintf("L%d(parent %d).cond", l.ID, l.Parent), l.Cond)
+		pr(fmt.Sprintf("L%d.entry", l.ID), l.Entry)
 		pr(fmt.Sprintf("L%d.over", l.ID), l.Over)
 		for j, x := range l.Exits {
 			pr(fmt.Sprintf("L%d.exit%d", l.ID, j), x)
